@@ -7,12 +7,12 @@ CHECKS = {
  "C12": dict(
   level="model_checking", design="6/C12", engine="sched",
   technique="stateless schedule exploration: preemption-bounded baton scheduler over real threads racing on the real lazycompile wrapper (stub + real Numba compilation), controlled dask scheduler enumerating task orders with bounded deviations, virtual prange (AST transform, one cooperative thread per row); exhaustive configuration product (chunkings x layouts x schedulers x thread counts)",
-  text="All interleavings at line granularity / preemption-bounded at bytecode granularity for 2-3 threads; dask task orders with <=1 (2) deviations for 17 accessor operations; all 32 (y,x) chunkings x 3 (6) layouts x 2 (7) schedulers; all 31 time chunkings (raise or equal eager); pixel permutations; thread counts 1..16; prange body interleavings with <=2 (3) preemptions. Oracle: eager / sequential result, bit-exact. The thread count a kernel asks for (numba.get_num_threads) is enumerated 1..6 on 1..7 rows in the virtualised source.",
+  text="All interleavings at line granularity / preemption-bounded at bytecode granularity for 2-3 threads; dask task orders with <=1 (2) deviations for 17 accessor operations; all 32 (y,x) chunkings x 3 (6) layouts x 2 (7) schedulers; all 31 time chunkings (raise or equal eager); pixel permutations; thread counts 1..16; prange body interleavings with <=2 (3) preemptions. Oracle: eager / sequential result, bit-exact. The thread count a kernel asks for (numba.get_num_threads) is enumerated 1..6 on 1..7 rows in the virtualised source. Joint graphs: 15 operation pairs (two auxiliary inputs on one lazy cube; one call on two cubes) evaluated with dask.compute(a, b) and as a - b, 3 chunkings x 2 schedulers, each against its in-memory result.",
   note="Native-code interleavings (GIL-free gufunc loops, Numba threading layer) are not controllable from Python; configurations are enumerated there. The free-running lazy pass is sampling and reported as a supplement."),
  "C13": dict(
   level="translation_validation", design="6/C13", engine="sse-product",
   technique="bounded exhaustive differential execution of every discovered @njit/@guvectorize program (35) compiled vs its own source under CPython (numba types -> NumPy dtypes, callees compiled) on exhaustive word sets per dtype; SciPy special functions in nopython code vs scipy.special on log grids",
-  text="35 programs, ~40k (400k) input cases, 120k special-function evaluations; tolerances as stated in the property; selection ties decided by the C04/C05 reference. Every integer-typed program also over the whole range of its input dtypes (int16 / uint8 / uint16 / int32 / int64 extremes).",
+  text="35 programs, ~40k (400k) input cases, 120k special-function evaluations; tolerances as stated in the property; selection ties decided by the C04/C05 reference. Every integer-typed program also over the whole range of its input dtypes (int16 / uint8 / uint16 / int32 / int64 extremes). Gaps also written as NaN / +inf / -inf; interpreter-only exceptions outside a white-list of benign run-time differences are disagreements.",
   note="An overflow under the interpreter is NumPy's warn-and-wrap value and is compared; inputs on which the interpreter raises a Python-level error compiled code cannot raise (math domain errors) are out-of-domain and counted; legacy ops/whit.py is excluded (not imported by the package)."),
  "C14": dict(
   level="exploration", design="6/C14", engine="sse-product",
@@ -22,52 +22,52 @@ CHECKS = {
  "C07": dict(
   level="exploration", design="6/C07", engine="sse-product",
   technique="bounded exhaustive enumeration of words over {ND,0,1,2,7,30} x all calibration windows x 4 kernel entry points + accessor, and a deterministic quantile-grid family, against an independent SciPy evaluation of the SPI definition with an interval for the fitted shape",
-  text="All words of length 3..6/7 with every window of >=2 steps, int16/float32/float64 inputs; shapes 0.05..500, scales 0.1..1e4, n<=400 with zeros and ties. Interval oracle: every integer between the rounded ends for alpha*(1+-1e-9) (float32: single-precision log bound). Accessor windows written with dates on the steps and strictly between steps; attribute histories of nodata on one object (depth 3).",
+  text="All words of length 3..6/7 with every window of >=2 steps, int16/float32/float64 inputs; shapes 0.05..500, scales 0.1..1e4, n<=400 with zeros and ties. Interval oracle: every integer between the rounded ends for alpha*(1+-1e-9) (float32: single-precision log bound). Accessor windows written with dates on the steps and strictly between steps; attribute histories of nodata on one object (depth 3). nodata given as argument (-9999 / 0 / 7) against every state of the attribute (absent / equal / conflicting), ungrouped and grouped.",
   note="Trusts scipy.special (digamma, gammainc, ndtri) and scipy.optimize.brentq as the reference; |SPI|>7000 left to C08."),
  "C08": dict(
   level="exploration", design="6/C08", engine="sse-product",
   technique="bounded exhaustive enumeration: words with negative / nodata letters (ordering inside each pixel), extremes ladders base*10^k for k=-300..6 over shapes 0.5..1e4, and every placement of every kind of unfittable pixel in a 2x2 cube x dtypes x grouped",
-  text="Non-decreasing indices, equal -> equal, nodata/negative -> nodata (and replacing negatives by nodata changes nothing), saturation instead of wrap, no exception, neighbours unaffected; dense ladders of 321 quantile levels (-6..6 sigma) with zero shares 0..0.8.",
+  text="Non-decreasing indices, equal -> equal, nodata/negative -> nodata (and replacing negatives by nodata changes nothing), saturation instead of wrap, no exception, neighbours unaffected; dense ladders of 321 quantile levels (-6..6 sigma) with zero shares 0..0.8. Zero-share rule on pixels with invalid cells: z <= 40 zeros x k <= 20 nodata / negative cells x 3 arrangements x 4 entry points.",
   note="The saturation value itself is not pinned by the statement; only order preservation is demanded beyond the int16 range."),
  "C09": dict(
   level="exploration", design="6/C09", engine="sse-product",
   technique="bounded exhaustive enumeration of time axes (subsets of a 9-position lattice) x all begin/end dates on/between/before/after steps, and of set partitions x label spellings for groups; index reference + differential grouped vs per-group ungrouped path",
-  text="Window membership, attrs, ValueError for every invalid window and only those, grouped == per-group ungrouped, spelling invariance, single group == ungrouped, to_linspace / get_calibration_indices directly, 36 dekad groups; axes stamped at 10:30 with begin/end at three times of day; far-away sentinel dates (years 1..9999); call sequences in one process over 21 axes with equal extent. Influence oracle at the kernels: an observation outside the calibration window never influences the indices of other positions (every pixel x window x position, ungrouped and two groupings).",
+  text="Window membership, attrs, ValueError for every invalid window and only those, grouped == per-group ungrouped, spelling invariance, single group == ungrouped, to_linspace / get_calibration_indices directly, 36 dekad groups; axes stamped at 10:30 with begin/end at three times of day; far-away sentinel dates (years 1..9999); call sequences in one process over 21 axes with equal extent. Influence oracle at the kernels: an observation outside the calibration window never influences the indices of other positions (every pixel x window x position, ungrouped and two groupings). Axes of 32767..40000 steps (one group == ungrouped, two groups == per-group, windows beyond position 32767).",
   note="Axes of 5 steps (quick) / 3..6 steps (thorough) for windows; 6..7 (9) steps for groups."),
  "C10": dict(
   level="model_checking", design="6/C10", engine="sse-trie",
   technique="explicit-state exploration of the trie of all weak orderings (rank patterns) of 2..7/8 points, exact reference (integer S, rational variance and Sen slope) on every state, S-increment relation on every edge, symmetry relations; 4 kernel entry points + accessor",
-  text="All 52608 (598443) rank patterns; tau, p, slope, flag compared with exact values (float32 1 ulp); x->2x+3, x^3, -x, reversal; all-nodata pixels (also nodata=0); all words over three values n=8..9 (11); patterns spread over the whole int16 range; decision-boundary family: for every n<=80 (200) and 8 tie structures the smallest significant and largest non-significant score. Attribute histories of nodata on one long-lived object (depth 3) against a fresh object.",
+  text="All 52608 (598443) rank patterns; tau, p, slope, flag compared with exact values (float32 1 ulp); x->2x+3, x^3, -x, reversal; all-nodata pixels (also nodata=0); all words over three values n=8..9 (11); patterns spread over the whole int16 range; decision-boundary family: for every n<=80 (200) and 8 tie structures the smallest significant and largest non-significant score. Attribute histories of nodata on one long-lived object (depth 3) against a fresh object. Accessor on strided views (transposed time-first cube, Fortran order, every second step).",
   note="Threshold guard |p-0.05|>1e-9 never triggers in scope (min 1.3e-3)."),
  "C11": dict(
   level="model_checking", design="6/C11", engine="calendar",
   technique="complete enumeration of the finite state space: all 3,652,059 days and 359,964 dekads with successor transitions, every clause of the statement evaluated in every state; accessor vs scalar class element-wise",
-  text="Not bounded: the whole calendar 0001..9999 is explored in every run (quick and thorough).",
+  text="Not bounded: the whole calendar 0001..9999 is explored in every run (quick and thorough). Accessor on every axis that is a subset of <= 4 (5) instants of a 13-instant lattice over four dekads, three orders.",
   note="Reference = datetime / calendar from the standard library."),
  "C15": dict(
   level="model_checking", design="6/C15", engine="sse-trie",
   technique="explicit-state exploration of the input trie over {ND,a,b,c} (length 3..9/10) with a streaming exact-integer reference (ten running sums), int/nodata vs float/NaN, (y,x,t) vs (t,y,x), affine invariance, accessor numpy/dask; 900-step outage family",
-  text="All 349k (1.4M) words; value, range [-1,1], encodings, layouts, affine maps; large-offset alphabet (30000+{0,1,5}); nearly flat plateaus n=30..900; nodata=0 attribute. Words over decimal fractions (float64 / float32) and records flat after their first sample up to 900 steps; attribute histories of nodata on one object, both layouts.",
+  text="All 349k (1.4M) words; value, range [-1,1], encodings, layouts, affine maps; large-offset alphabet (30000+{0,1,5}); nearly flat plateaus n=30..900; nodata=0 attribute. Words over decimal fractions (float64 / float32) and records flat after their first sample up to 900 steps; attribute histories of nodata on one object, both layouts. Plateau records that start with missing cells.",
   note="Tolerance 2e-6 absolute (float32 outputs). Float data with decimal fractions: 2e-5 (rounding residue of the single-pass sums), finite and within [-1,1] required."),
  "C16": dict(
   level="exploration", design="6/C16", engine="sse-product",
   technique="bounded exhaustive enumeration of zone x value assignments for rasters of 1..5/6 pixels x num_zones x dtype, boundary zone sizes 2^24-1, 2^24, 2^24+2, 25M, 1000 zones, all 720 pixel permutations, accessor numpy/dask",
-  text="Exact mean (2 ulp of output dtype) and exact count, NaN/0 for empty zones, zone-nodata pixels excluded, rearrangement invariance; zone rasters of every integer dtype with fill values outside int16. Attribute histories of nodata on the value cube and on the zone raster (depth 3).",
+  text="Exact mean (2 ulp of output dtype) and exact count, NaN/0 for empty zones, zone-nodata pixels excluded, rearrangement invariance; zone rasters of every integer dtype with fill values outside int16. Attribute histories of nodata on the value cube and on the zone raster (depth 3). Value rasters of eight dtypes over their whole range; five zone rasters on one lazy cube evaluated in one graph (joint_zones).",
   note="Large zones use integer-valued pixels (exact float64 sums)."),
  "C18": dict(
   level="model_checking", design="6/C18", engine="sse-trie",
   technique="explicit-state exploration of the binary input trie (length 1..16/18) with a run-length automaton and edge relations; long-run family beyond 255 / 65535; non-binary alphabet; croo under all permutations of the stored time order",
-  text="All 131070 binary words, runs up to 1000 (70000), all 720 stored orders for words up to length 6, time axes before / across 1970, one object relabelled in place through all 120 orders. croo on cubes of 257..1000 steps holding every combination of current run length x isolated 1 at 64..768 steps back, three storage orders, numpy and dask.",
+  text="All 131070 binary words, runs up to 1000 (70000), all 720 stored orders for words up to length 6, time axes before / across 1970, one object relabelled in place through all 120 orders. croo on cubes of 257..1000 steps holding every combination of current run length x isolated 1 at 64..768 steps back, three storage orders, numpy and dask. lroo through the accessor on 3 900 small cubes (every word alone, pairs, triples) in four layouts incl. views and dask.",
   note="croo is only claimed for binary series (the property's quantifier)."),
  "C19": dict(
   level="model_checking", design="6/C19", engine="sse-trie",
   technique="exhaustive exploration of the generator: axis length 1..8/12 x n x begin x end x lookup method x reducer x dim kind, every next() compared with the reference window list; off-axis labels must raise ValueError",
-  text="Every configuration inside the bound, time and numeric dims (incl. fractional labels on integer axes), NaN data; int16 / int32 / uint8 / bool / float32 cubes.",
+  text="Every configuration inside the bound, time and numeric dims (incl. fractional labels on integer axes), NaN data; int16 / int32 / uint8 / bool / float32 cubes. Every placement of one or two NaN positions x every on-axis begin / end x n x sum / mean on both dimension kinds.",
   note="Lookup methods follow pandas get_indexer semantics; nearest ties accept either neighbour."),
  "C20": dict(
   level="exploration", design="6/C20", engine="sse-product",
   technique="bounded exhaustive enumeration of templates (n obs 2..4/5, gaps 0..3, head/tail) x all contiguous labelings x value words; reference curve at lambda=1e-5 (refined float, cross-checked with rationals), period means, tie band; inputs unmodified; accessor; long regular families",
-  text="158 templates x 2^(L-1) labelings (increasing, descending and zig-zag label ids) x value words; lines in day number give exact period means.",
+  text="158 templates x 2^(L-1) labelings (increasing, descending and zig-zag label ids) x value words; lines in day number give exact period means. Template stored as bool / uint8 / int8 / int16 / int32 / int64 / float32 / float64 with sparse irregular marks.",
   note="Either neighbour accepted within 1e-6 of a rounding tie."),
  "C01": dict(
   level="exploration", design="6/C01", engine="sse-product",
@@ -102,7 +102,7 @@ CHECKS = {
  "C17": dict(
   level="model_checking", design="6/C17", engine="sse-trie",
   technique="explicit-state exploration of the input trie (every word over {ND,4 letters} to length 7/8, every window) with a sliding-window reference automaton stepped on every edge, run against the compiled kernel and the accessor",
-  text="Every word over a 5-symbol alphabet up to the length bound, every window size, three nodata renderings and four dtypes is executed on the real kernel and compared with a reference automaton; the causality edge relation is checked on every trie transition; mean_grp over every surjective labeling. Complete inside the bound; longer series only through a deterministic family. 1000-step records at levels 26000 / 100000 (record total beyond 2^24, every window sum exact); attribute histories of nodata on one object for rolling.sum and mean_grp.",
+  text="Every word over a 5-symbol alphabet up to the length bound, every window size, three nodata renderings and four dtypes is executed on the real kernel and compared with a reference automaton; the causality edge relation is checked on every trie transition; mean_grp over every surjective labeling. Complete inside the bound; longer series only through a deterministic family. 1000-step records at levels 26000 / 100000 (record total beyond 2^24, every window sum exact); attribute histories of nodata on one object for rolling.sum and mean_grp. Records of 32767..70000 steps for mean_grp and rolling_sum.",
   note="Trusts NumPy integer arithmetic for the reference sums; bound: length <= 7 (quick) / 8 (thorough), 4 letters + nodata."),
 }
 
